@@ -300,7 +300,11 @@ APP_PATHS = ["", "/", "/docs", "/docs/", "/docs/guide", "/docs/guide/", "/docs/g
              "/api", "/api/", "/api/items/7", "/api/items/x", "/api/d/2021-03-07/90478484-0988-45fc-91fe-757d90136892", "/api/d/2021-13-45/90478484-0988-45fc-91fe-757d90136892", "/api/dec/1.50", "/api/any/a/b", "/api/s/é",
              "/ü", "/ü/é", "/üx", "/deep", "/deep/er", "/deep/er/guide", "/deep/er/guide/", "/deep/other", "/other", "/file.txt", "/guide"]
 APP_HEADERS = [[("Host", "a.com")], [("Host", "b.org")], [("Host", "www.b.org:8080")], [("Host", "c.net")], [], [("Host", "caf\xe9.example.com")], [("Host", "caf\xc3\xa9.example.com")]]
-COND = [[], [("If-None-Match", "*")], [("If-Modified-Since", "Tue, 14 Nov 2023 22:13:20 GMT")], [("If-Modified-Since", "Tue, 14 Nov 2000 22:13:20 GMT")], [("Range", "bytes=0-3")], [("Range", "")], [("If-Range", ""), ("Range", "bytes=1-2")]]
+FUTURE = "Fri, 01 Jan 2100 00:00:00 GMT"  # later than any change time the scratch files can have
+COND = [[], [("If-None-Match", "*")], [("If-Modified-Since", "Tue, 14 Nov 2023 22:13:20 GMT")], [("If-Modified-Since", "Tue, 14 Nov 2000 22:13:20 GMT")], [("Range", "bytes=0-3")], [("Range", "")], [("If-Range", ""), ("Range", "bytes=1-2")],
+        # both validators at once, in both header orders: the entity tag decides and the date is ignored
+        [("If-Modified-Since", FUTURE)], [("If-None-Match", '"stale"')], [("If-None-Match", '"stale"'), ("If-Modified-Since", FUTURE)], [("If-Modified-Since", FUTURE), ("If-None-Match", '"stale"')],
+        [("If-None-Match", "*"), ("If-Modified-Since", "Tue, 14 Nov 2000 22:13:20 GMT")], [("If-None-Match", '"stale"'), ("If-Modified-Since", "Tue, 14 Nov 2000 22:13:20 GMT")], [("If-None-Match", ""), ("If-Modified-Since", FUTURE)]]
 
 
 def file_cases():
@@ -312,7 +316,7 @@ def file_cases():
 
 def shards(tier, seed):
     out = [("view", k, 8) for k in range(8)]
-    out += [("bodies",), ("sequences",)]
+    out += [("bodies",), ("sequences",), ("jsonbodies",)]
     out += [("small", k, 8) for k in range(8)]
     out += [("streams",), ("files",)]
     out += [("apps", name) for name in ("mounts", "hosts", "middleware-over-mounts", "files-handle404", "pages-private")]
@@ -336,6 +340,25 @@ def run_shard(desc, tier):
         for bk, areq in body_requests(tier):
             compare(r, f"echo-body:{bk}", apps, areq, f"POST {bk} body in chunks {[len(c) for c in areq.chunks]}")
         r.sample({"recipe": "echo view with body", "body_kind": "multipart2", "chunking": "every two-way split"})
+    elif kind == "jsonbodies":
+        # JSON texts in every encoding json.loads() would guess from bytes, with a byte order mark, with encoded lone surrogates,
+        # invalid bytes and odd values, under Content-Type with no / known / unknown charset: both interfaces must read the same value
+        apps = {i: echo_app(i) for i in ("wsgi", "asgi")}
+        texts = ['{"a": 1}', '"é中"', "[]", "", " ", "nul", "NaN", "1e999", '{"a":1,"a":2}', "[" * 30 + "]" * 30, '"\ud800"', "\ufeff{}", "12345678901234567890123", "'x'"]
+        bodies = []
+        for t in texts:
+            for enc in ("utf-8", "utf-8-sig", "utf-16", "utf-16-le", "utf-16-be", "utf-32", "utf-32-le", "latin-1"):
+                try:
+                    bodies.append((f"{t[:12]!r} as {enc}", t.encode(enc)))
+                except UnicodeEncodeError:
+                    pass
+        bodies += [("lone surrogate in UTF-8", b'"\xed\xa0\x80"'), ("invalid byte", b'"\xff"'), ("BOM only", b"\xef\xbb\xbf"), ("BOM twice", b"\xef\xbb\xbf\xef\xbb\xbf{}"), ("NUL padded", b"\x00{}"), ("overlong", b'"\xc0\xaf"')]
+        cts = ["application/json", "application/json; charset=utf-8", "application/json; charset=UTF-16", "application/json; charset=latin-1", "application/json; charset=nope", "application/json; charset=utf-8-sig",
+               "application/json;charset=", "text/plain", None]
+        for (label, body), ct in itertools.product(bodies, cts):
+            areq = SV.AReq(method="POST", path="/p", headers=[("Content-Type", ct)] if ct else [], chunks=[body])
+            compare(r, "echo-body:jsontext", apps, areq, f"POST JSON text {label} with Content-Type {ct!r}")
+        r.sample({"recipe": "JSON request bodies", "texts": len(texts), "encodings": 8, "content_types": cts})
     elif kind == "sequences":
         from . import c10
         for bk, (B, ct) in c10.KINDS.items():
